@@ -278,6 +278,23 @@ func c04CheckE2E(c c04E2ECase) engine.Result {
 						res.Failf("adaptationfield.OPCR|read-back", "afLen %d: got % x err %v", afLen, b, err)
 					}
 				}
+				// the values stay what was set when fields around them come and go
+				if c.Kind == "af-both" && afLen >= 20 {
+					if af.SetHasSplicingPoint(true) == nil && af.SetSpliceCountdown(0x5A) == nil && af.SetHasTransportPrivateData(true) == nil &&
+						af.SetTransportPrivateData([]byte{0xD1, 0xD2, 0xD3}) == nil && af.SetHasPCR(false) == nil {
+						if got, err := af.OPCR(); err != nil || got != ref.PCRValue(model.OPCR) {
+							res.Failf("OPCR|read-back-after-PCR-removed", "afLen %d: OPCR %d reads back %d (err %v) after the PCR in front of it was removed", afLen, ref.PCRValue(model.OPCR), got, err)
+						}
+						if af.SetHasPCR(true) == nil && af.SetPCR(c.V) == nil {
+							if got, err := af.OPCR(); err != nil || got != ref.PCRValue(model.OPCR) {
+								res.Failf("OPCR|read-back-after-PCR-reinserted", "afLen %d: OPCR reads back %d (err %v)", afLen, got, err)
+							}
+							if got, err := af.PCR(); err != nil || got != c.V {
+								res.Failf("PCR|read-back-after-reinsert", "afLen %d: PCR reads back %d (err %v)", afLen, got, err)
+							}
+						}
+					}
+				}
 			}
 			// the same value installed by copying a whole adaptation field from another packet
 			if c.Kind == "af-pcr" {
@@ -339,6 +356,11 @@ func c04CheckE2E(c c04E2ECase) engine.Result {
 					if err != nil {
 						res.Failf("NewPESHeader|error", "%v on % x", err, in)
 						continue
+					}
+					// getters in either order: half of the headers are asked for the DTS first
+					if (int(sid)+extra)%2 == 1 {
+						_ = h.DTS()
+						_ = h.HasDTS()
 					}
 					if !h.HasPTS() || h.PTS() != c.V {
 						res.Failf("PES|PTS", "stream %#x: PTS %#x read as %#x (has=%v)", sid, c.V, h.PTS(), h.HasPTS())
